@@ -27,6 +27,8 @@ NonJsonT(T, env, seen) ==
                         \/ (\E i \in DOMAIN T.ix : NonJsonT(T.ix[i].kt, env, seen) \/ NonJsonT(T.ix[i].vt, env, seen))
     [] T.t \in {"union", "inter"} -> \E i \in DOMAIN T.ms : NonJsonT(T.ms[i], env, seen)
     [] T.t = "ref"   -> T.n \notin seen /\ NonJsonT(Lookup(env, T.n), env, seen \cup {T.n})
+    [] T.t = "deco"  -> NonJsonT(T.a, env, seen)           \* spelling-only decorations (parentheses, readonly, element labels, comments)
+    [] T.t = "app"   -> NonJsonT(Instantiate(env, T.n, T.args), env, seen)
     [] OTHER -> FALSE
 
 RECURSIVE RefsOfType(_, _, _)
@@ -37,6 +39,9 @@ RefsOfType(T, env, seen) ==   \* names reachable from T
                                \cup {RefsOfType(T.ix[i].vt, env, seen) : i \in DOMAIN T.ix})
     [] T.t \in {"union", "inter"} -> UNION {RefsOfType(T.ms[i], env, seen) : i \in DOMAIN T.ms}
     [] T.t = "ref"   -> IF T.n \in seen THEN {T.n} ELSE {T.n} \cup RefsOfType(Lookup(env, T.n), env, seen \cup {T.n})
+    [] T.t = "deco"  -> RefsOfType(T.a, env, seen)
+    [] T.t \in {"set"} -> RefsOfType(T.e, env, seen)
+    [] T.t = "map"   -> RefsOfType(T.kt, env, seen) \cup RefsOfType(T.vt, env, seen)
     [] OTHER -> {}
 IsRecursive(T, env) == \E i \in DOMAIN env : env[i].n \in RefsOfType(env[i].ty, env, {})  /\ env[i].n \in RefsOfType(T, env, {})
 
